@@ -70,3 +70,38 @@ def wvar (x w : List α) : α :=
   let m := wmean x w
   let corr := listSum w - listSum (w.map fun a => a * a) / listSum w
   listSum (List.zipWith (fun wi xi => wi * ((xi - m) * (xi - m))) w x) / corr
+
+/-! ## SI coordinates (`ParticleBeam.to_xyz_pxpypz`, `from_xyz_pxpypz`) -/
+
+/-- constants as the code holds them: `electron_mass`, `speed_of_light` (module-level tensors) and the
+product `electron_mass * speed_of_light` as the code forms it -/
+structure SIConsts (α : Type) where
+  me : α
+  c : α
+  mec : α
+
+/-- `Beam.relativistic_beta` -/
+def relBeta (gamma : α) : α := if ltb 0.0 (abs gamma) then sqrt (1.0 - 1.0 / (gamma * gamma)) else 1.0
+
+/-- `to_xyz_pxpypz` for one particle -/
+def toXyz (s : SIConsts α) (E0 mc2 : α) (v : Vec7 α) : Vec7 α :=
+  let g0 := E0 / mc2
+  let b0 := relBeta g0
+  let p0 := g0 * b0 * s.me * s.c
+  let gamma := g0 * (1.0 + v.a5 * b0)
+  let beta := sqrt (1.0 - 1.0 / (gamma * gamma))
+  let momentum := gamma * s.me * beta * s.c
+  let px := v.a1 * p0
+  let py := v.a3 * p0
+  let zs := v.a4 * (-b0)
+  let p := sqrt (momentum * momentum - px * px - py * py)
+  ⟨v.a0, px, v.a2, py, zs, p, v.a6⟩
+
+/-- `from_xyz_pxpypz` for one particle -/
+def fromXyz (s : SIConsts α) (E0 mc2 : α) (w : Vec7 α) : Vec7 α :=
+  let g0 := E0 / mc2
+  let b0 := relBeta g0
+  let p0 := g0 * b0 * s.me * s.c
+  let p := sqrt (w.a1 * w.a1 + w.a3 * w.a3 + w.a5 * w.a5)
+  let gamma := sqrt (1.0 + (p / s.mec) * (p / s.mec))
+  ⟨w.a0, w.a1 / p0, w.a2, w.a3 / p0, -w.a4 / b0, (gamma - g0) / (b0 * g0), w.a6⟩
